@@ -290,6 +290,14 @@ impl<'tcx> Cx<'tcx> {
     }
     let _ = write!(s, ",\"generics\":[{}]", gnames.join(","));
     let _ = write!(s, ",\"argc\":{}", body.arg_count);
+    // declared visibility of fns / methods: "pub" | "crate" | "private" (restricted to a module below the crate root)
+    if matches!(kind, DefKind::Fn | DefKind::AssocFn) {
+      let v = match tcx.visibility(def) {
+        rustc_middle::ty::Visibility::Public => "pub",
+        rustc_middle::ty::Visibility::Restricted(m) => if m.is_crate_root() { "crate" } else { "private" },
+      };
+      let _ = write!(s, ",\"vis\":\"{}\"", v);
+    }
     // locals
     let mut names: Vec<Option<String>> = vec![None; body.local_decls.len()];
     for vdi in &body.var_debug_info {
